@@ -35,11 +35,23 @@ type dests struct {
 	bs      asn1.BitString
 	raw     asn1.RawValue
 	tm      time.Time
+	rawb    []byte            // ReadASN1BitStringAsBytes / ReadASN1Bytes
+	str     cryptobyte.String // ReadASN1
 	withAny bool
-	rInt    refInt
-	rOID    refOIDRes
-	rHdr    refHdr
-	rTime   refTime
+	// prior.go: the BOOLEAN baseline's prior content, and the backing arrays /
+	// objects of the prior contents, retained per destination object
+	boolBase bool
+	prevOID  [2][]int
+	prevBS   [2][]byte
+	prevOct  [2][]byte
+	prevRaw  [2][]byte
+	prevStr  [2][]byte
+	prevAny  []byte
+	prevBig  [2]big.Int
+	rInt     refInt
+	rOID     refOIDRes
+	rHdr     refHdr
+	rTime    refTime
 }
 
 // idMasks: XORed into the expected identifier octet they give the 7 other
@@ -67,20 +79,27 @@ func withTrailer(in []byte) []byte {
 
 func noWhy() string { return "rejected" }
 
-// asn1Dec decodes `in` into dst with encoding/asn1 and, when accepted,
-// re-encodes the value returned by get() with asn1.Marshal.
-func (w *W) asn1Dec(t int, in []byte, v verdict, core bool, info int, dst interface{}, get func() (interface{}, bool)) {
+// asn1Dec decodes `in` into the destination dst(&w.d) (slot sl, zero value) with
+// encoding/asn1 and, when accepted, re-encodes the value returned by get() with
+// asn1.Marshal; then the destination-independence pass (prior.go).
+func (w *W) asn1Dec(t int, in []byte, v verdict, core bool, info int, sl *slot, dst func(d *dests) interface{}, get func() (interface{}, bool)) {
 	w.cur, w.ct = in, t
-	rest, err := asn1.Unmarshal(in, dst)
+	sl.set(&w.d, 0)
+	w.keepInput(in)
+	rest, err := asn1.Unmarshal(in, dst(&w.d))
 	w.ops++
 	if err != nil {
 		w.rejected(t, v, core, info, func() string { return "Unmarshal error: " + err.Error() })
-		return
+	} else {
+		x, valOK := get()
+		re, reErr := asn1.Marshal(x)
+		w.ops++
+		w.accepted(t, v, len(in)-len(rest), re, reErr, valOK, func() string { return fmt.Sprintf("%v", x) })
 	}
-	x, valOK := get()
-	re, reErr := asn1.Marshal(x)
-	w.ops++
-	w.accepted(t, v, len(in)-len(rest), re, reErr, valOK, func() string { return fmt.Sprintf("%v", x) })
+	w.afterRead(t, in, sl, err == nil, len(rest), func(d *dests) (bool, int) {
+		rest, err := asn1.Unmarshal(in, dst(d))
+		return err == nil, len(rest)
+	})
 }
 
 // builder returns the worker's Builder, reset to write into the scratch buffer
@@ -90,21 +109,31 @@ func (w *W) builder() *cryptobyte.Builder {
 	return w.bld
 }
 
-// cbDec decodes with a cryptobyte reader and re-encodes with the Builder.
-func (w *W) cbDec(t int, in []byte, v verdict, core bool, info int, read func(s *cryptobyte.String) bool, build func(b *cryptobyte.Builder), valOK func() bool, valStr func() string) {
+// cbDec decodes with a cryptobyte reader into the destination of slot sl in w.d
+// (zero value) and re-encodes with the Builder; then the destination-independence
+// pass (prior.go). build, valOK and valStr look at w.d.
+func (w *W) cbDec(t int, in []byte, v verdict, core bool, info int, sl *slot, read func(s *cryptobyte.String, d *dests) bool, build func(b *cryptobyte.Builder), valOK func() bool, valStr func() string) {
 	w.cur, w.ct = in, t
+	sl.set(&w.d, 0)
+	w.keepInput(in)
 	w.s = cryptobyte.String(in)
-	ok := read(&w.s)
+	ok := read(&w.s, &w.d)
 	w.ops++
+	left := len(w.s)
 	if !ok {
 		w.rejected(t, v, core, info, noWhy)
-		return
+	} else {
+		b := w.builder()
+		build(b)
+		re, reErr := b.Bytes()
+		w.ops++
+		w.accepted(t, v, len(in)-left, re, reErr, valOK(), valStr)
 	}
-	b := w.builder()
-	build(b)
-	re, reErr := b.Bytes()
-	w.ops++
-	w.accepted(t, v, len(in)-len(w.s), re, reErr, valOK(), valStr)
+	w.afterRead(t, in, sl, ok, left, func(d *dests) (bool, int) {
+		w.s = cryptobyte.String(in)
+		ok := read(&w.s, d)
+		return ok, len(w.s)
+	})
 }
 
 // ================================================================ INTEGER
@@ -158,6 +187,9 @@ func evalInt(w *W, content []byte) {
 	copy(in[2:], content)
 	refInteger(content, &w.d.rInt)
 	v := verdict{w.d.rInt.reason, len(in)}
+	// destination pre-fill (prior.go): of the 2^24 three-octet contents the quick tier
+	// takes those whose first and last octet are in edge6
+	w.pf = n != 3 || w.pfAll || isEdge6(content[2]) && isEdge6(content[0])
 	w.intTargets(in, v, 0, n)
 	if w.anyAccept && (n != 3 || isEdge6(content[2]) && (w.allVariants || isEdge6(content[0]))) {
 		w.intVariants(in, v, n)
@@ -169,9 +201,12 @@ func evalInt(w *W, content []byte) {
 func (w *W) intVariants(in []byte, v verdict, n int) {
 	w.intTargets(withTrailer(in), v, 0, n)
 	vv := verdict{intX.wrongID, len(in)}
-	for _, m := range idMasks {
+	pf := w.pf
+	for i, m := range idMasks {
+		w.pf = pf && i == 0 // destination pre-fill under the first of the other identifier octets only
 		w.intTargets(in, vv, m, n)
 	}
+	w.pf = pf
 }
 
 // intTargets hands `in` (identifier octet is set here: expected identifier XOR
@@ -186,102 +221,83 @@ func (w *W) intTargets(in []byte, v verdict, mask byte, n int) {
 	inU64 := canon && r.fitsUint64()
 
 	in[0] = 0x02 ^ mask
-	d.i = 0
-	w.asn1Dec(tIntA, in, v, in64, 0, &d.i, func() (interface{}, bool) { return d.i, r.eqInt64(int64(d.i)) })
-	d.i32 = 0
-	w.asn1Dec(tInt32A, in, v, in32, 0, &d.i32, func() (interface{}, bool) { return d.i32, r.eqInt64(int64(d.i32)) })
-	d.i64 = 0
-	w.asn1Dec(tInt64A, in, v, in64, 0, &d.i64, func() (interface{}, bool) { return d.i64, r.eqInt64(d.i64) })
-	d.bigp = nil
-	w.asn1Dec(tBigA, in, v, canon, 0, &d.bigp, func() (interface{}, bool) { return d.bigp, r.eqBig(d.bigp) })
+	w.asn1Dec(tIntA, in, v, in64, 0, slotI, func(d *dests) interface{} { return &d.i }, func() (interface{}, bool) { return d.i, r.eqInt64(int64(d.i)) })
+	w.asn1Dec(tInt32A, in, v, in32, 0, slotI32, func(d *dests) interface{} { return &d.i32 }, func() (interface{}, bool) { return d.i32, r.eqInt64(int64(d.i32)) })
+	w.asn1Dec(tInt64A, in, v, in64, 0, slotI64, func(d *dests) interface{} { return &d.i64 }, func() (interface{}, bool) { return d.i64, r.eqInt64(d.i64) })
+	w.asn1Dec(tBigA, in, v, canon, 0, slotBigP, func(d *dests) interface{} { return &d.bigp }, func() (interface{}, bool) { return d.bigp, r.eqBig(d.bigp) })
 	// Targets beyond the design's list skip the 2^24 three-octet contents, except
 	// *int16 / *uint16 whose range limits need three content octets.
 	extra := n != 3
 	if extra && mask == 0 { // an interface{} destination is ANY: it states no expected identifier
-		d.any = nil
-		w.asn1Dec(tAnyA, in, v, in64, 0, &d.any, func() (interface{}, bool) {
+		w.asn1Dec(tAnyA, in, v, in64, 0, slotAny, func(d *dests) interface{} { return &d.any }, func() (interface{}, bool) {
 			x, ok := d.any.(int64)
 			return d.any, ok && r.eqInt64(x)
 		})
 	}
 
-	d.i64 = 0
-	w.cbDec(tInt64C, in, v, in64, 0,
-		func(s *cryptobyte.String) bool { return s.ReadASN1Integer(&d.i64) },
+	w.cbDec(tInt64C, in, v, in64, 0, slotI64,
+		func(s *cryptobyte.String, d *dests) bool { return s.ReadASN1Integer(&d.i64) },
 		func(b *cryptobyte.Builder) { b.AddASN1Int64(d.i64) },
 		func() bool { return r.eqInt64(d.i64) }, func() string { return fmt.Sprint(d.i64) })
 	if extra {
-		d.i32 = 0
-		w.cbDec(tInt32C, in, v, in32, 0,
-			func(s *cryptobyte.String) bool { return s.ReadASN1Integer(&d.i32) },
+		w.cbDec(tInt32C, in, v, in32, 0, slotI32,
+			func(s *cryptobyte.String, d *dests) bool { return s.ReadASN1Integer(&d.i32) },
 			func(b *cryptobyte.Builder) { b.AddASN1Int64(int64(d.i32)) },
 			func() bool { return r.eqInt64(int64(d.i32)) }, func() string { return fmt.Sprint(d.i32) })
 	}
-	d.u64 = 0
-	w.cbDec(tUint64C, in, v, inU64, 0,
-		func(s *cryptobyte.String) bool { return s.ReadASN1Integer(&d.u64) },
+	w.cbDec(tUint64C, in, v, inU64, 0, slotU64,
+		func(s *cryptobyte.String, d *dests) bool { return s.ReadASN1Integer(&d.u64) },
 		func(b *cryptobyte.Builder) { b.AddASN1Uint64(d.u64) },
 		func() bool { return r.eqUint64(d.u64) }, func() string { return fmt.Sprint(d.u64) })
-	d.bigv.SetInt64(0)
-	w.cbDec(tBigC, in, v, canon, 0,
-		func(s *cryptobyte.String) bool { return s.ReadASN1Integer(&d.bigv) },
+	w.cbDec(tBigC, in, v, canon, 0, slotBigV,
+		func(s *cryptobyte.String, d *dests) bool { return s.ReadASN1Integer(&d.bigv) },
 		func(b *cryptobyte.Builder) { b.AddASN1BigInt(&d.bigv) },
 		func() bool { return r.eqBig(&d.bigv) }, func() string { return d.bigv.String() })
 
 	// The remaining destination kinds of ReadASN1Integer: the reader must accept
 	// exactly the canonical encodings whose value fits the destination type.
-	d.i16 = 0
-	w.cbDec(tInt16C, in, v, canon && r.fitsSigned(16), 0,
-		func(s *cryptobyte.String) bool { return s.ReadASN1Integer(&d.i16) },
+	w.cbDec(tInt16C, in, v, canon && r.fitsSigned(16), 0, slotI16,
+		func(s *cryptobyte.String, d *dests) bool { return s.ReadASN1Integer(&d.i16) },
 		func(b *cryptobyte.Builder) { b.AddASN1Int64(int64(d.i16)) },
 		func() bool { return r.eqInt64(int64(d.i16)) }, func() string { return fmt.Sprint(d.i16) })
-	d.u16 = 0
-	w.cbDec(tUint16C, in, v, canon && r.fitsUnsigned(16), 0,
-		func(s *cryptobyte.String) bool { return s.ReadASN1Integer(&d.u16) },
+	w.cbDec(tUint16C, in, v, canon && r.fitsUnsigned(16), 0, slotU16,
+		func(s *cryptobyte.String, d *dests) bool { return s.ReadASN1Integer(&d.u16) },
 		func(b *cryptobyte.Builder) { b.AddASN1Uint64(uint64(d.u16)) },
 		func() bool { return r.eqUint64(uint64(d.u16)) }, func() string { return fmt.Sprint(d.u16) })
 	if extra {
-		d.i8 = 0
-		w.cbDec(tInt8C, in, v, canon && r.fitsSigned(8), 0,
-			func(s *cryptobyte.String) bool { return s.ReadASN1Integer(&d.i8) },
+		w.cbDec(tInt8C, in, v, canon && r.fitsSigned(8), 0, slotI8,
+			func(s *cryptobyte.String, d *dests) bool { return s.ReadASN1Integer(&d.i8) },
 			func(b *cryptobyte.Builder) { b.AddASN1Int64(int64(d.i8)) },
 			func() bool { return r.eqInt64(int64(d.i8)) }, func() string { return fmt.Sprint(d.i8) })
-		d.i = 0
-		w.cbDec(tIntC, in, v, in64, 0,
-			func(s *cryptobyte.String) bool { return s.ReadASN1Integer(&d.i) },
+		w.cbDec(tIntC, in, v, in64, 0, slotI,
+			func(s *cryptobyte.String, d *dests) bool { return s.ReadASN1Integer(&d.i) },
 			func(b *cryptobyte.Builder) { b.AddASN1Int64(int64(d.i)) },
 			func() bool { return r.eqInt64(int64(d.i)) }, func() string { return fmt.Sprint(d.i) })
-		d.u8 = 0
-		w.cbDec(tUint8C, in, v, canon && r.fitsUnsigned(8), 0,
-			func(s *cryptobyte.String) bool { return s.ReadASN1Integer(&d.u8) },
+		w.cbDec(tUint8C, in, v, canon && r.fitsUnsigned(8), 0, slotU8,
+			func(s *cryptobyte.String, d *dests) bool { return s.ReadASN1Integer(&d.u8) },
 			func(b *cryptobyte.Builder) { b.AddASN1Uint64(uint64(d.u8)) },
 			func() bool { return r.eqUint64(uint64(d.u8)) }, func() string { return fmt.Sprint(d.u8) })
-		d.u32 = 0
-		w.cbDec(tUint32C, in, v, canon && r.fitsUnsigned(32), 0,
-			func(s *cryptobyte.String) bool { return s.ReadASN1Integer(&d.u32) },
+		w.cbDec(tUint32C, in, v, canon && r.fitsUnsigned(32), 0, slotU32,
+			func(s *cryptobyte.String, d *dests) bool { return s.ReadASN1Integer(&d.u32) },
 			func(b *cryptobyte.Builder) { b.AddASN1Uint64(uint64(d.u32)) },
 			func() bool { return r.eqUint64(uint64(d.u32)) }, func() string { return fmt.Sprint(d.u32) })
-		d.u = 0
-		w.cbDec(tUintC, in, v, inU64, 0,
-			func(s *cryptobyte.String) bool { return s.ReadASN1Integer(&d.u) },
+		w.cbDec(tUintC, in, v, inU64, 0, slotU,
+			func(s *cryptobyte.String, d *dests) bool { return s.ReadASN1Integer(&d.u) },
 			func(b *cryptobyte.Builder) { b.AddASN1Uint64(uint64(d.u)) },
 			func() bool { return r.eqUint64(uint64(d.u)) }, func() string { return fmt.Sprint(d.u) })
 	}
 
 	tag0 := cbasn1.Tag(byte(ctx0) ^ mask)
 	in[0] = byte(tag0)
-	d.i64 = 0
-	w.cbDec(tTagC, in, v, in64, 0,
-		func(s *cryptobyte.String) bool { return s.ReadASN1Int64WithTag(&d.i64, ctx0) },
+	w.cbDec(tTagC, in, v, in64, 0, slotI64,
+		func(s *cryptobyte.String, d *dests) bool { return s.ReadASN1Int64WithTag(&d.i64, ctx0) },
 		func(b *cryptobyte.Builder) { b.AddASN1Int64WithTag(d.i64, ctx0) },
 		func() bool { return r.eqInt64(d.i64) }, func() string { return fmt.Sprint(d.i64) })
 
 	in[0] = 0x0a ^ mask
-	d.enum = 0
-	w.asn1Dec(tEnumA, in, v, in32, 0, &d.enum, func() (interface{}, bool) { return d.enum, r.eqInt64(int64(d.enum)) })
-	d.cenum = 0
-	w.cbDec(tEnumC, in, v, in64, 0,
-		func(s *cryptobyte.String) bool { return s.ReadASN1Enum(&d.cenum) },
+	w.asn1Dec(tEnumA, in, v, in32, 0, slotEnum, func(d *dests) interface{} { return &d.enum }, func() (interface{}, bool) { return d.enum, r.eqInt64(int64(d.enum)) })
+	w.cbDec(tEnumC, in, v, in64, 0, slotCEnm,
+		func(s *cryptobyte.String, d *dests) bool { return s.ReadASN1Enum(&d.cenum) },
 		func(b *cryptobyte.Builder) { b.AddASN1Enum(int64(d.cenum)) },
 		func() bool { return r.eqInt64(int64(d.cenum)) }, func() string { return fmt.Sprint(d.cenum) })
 }
@@ -331,24 +347,27 @@ func evalBool(w *W, content []byte) {
 	copy(in[2:], content)
 	reason, want := refBoolean(content)
 	v := verdict{reason, len(in)}
+	w.pf = true
 	w.boolTargets(in, v, 0, want)
 	if w.anyAccept {
 		w.boolTargets(withTrailer(in), v, 0, want)
 		vv := verdict{boolX.wrongID, len(in)}
-		for _, m := range idMasks {
+		pf := w.pf
+		for i, m := range idMasks {
+			w.pf = pf && i == 0 // destination pre-fill under the first of the other identifier octets only
 			w.boolTargets(in, vv, m, want)
 		}
+		w.pf = pf
 	}
 }
 
 func (w *W) boolTargets(in []byte, v verdict, mask byte, want bool) {
 	d := &w.d
 	in[0] = 0x01 ^ mask
-	d.b = !want
-	w.asn1Dec(0, in, v, true, 0, &d.b, func() (interface{}, bool) { return d.b, d.b == want })
-	d.b = !want
-	w.cbDec(1, in, v, true, 0,
-		func(s *cryptobyte.String) bool { return s.ReadASN1Boolean(&d.b) },
+	d.boolBase = !want // both decodes start from the complement of the expected value
+	w.asn1Dec(0, in, v, true, 0, slotBool, func(d *dests) interface{} { return &d.b }, func() (interface{}, bool) { return d.b, d.b == want })
+	w.cbDec(1, in, v, true, 0, slotBool,
+		func(s *cryptobyte.String, d *dests) bool { return s.ReadASN1Boolean(&d.b) },
 		func(b *cryptobyte.Builder) { b.AddASN1Boolean(d.b) },
 		func() bool { return d.b == want }, func() string { return fmt.Sprint(d.b) })
 }
@@ -408,8 +427,10 @@ func evalOID(w *W, body []byte) {
 	r := &w.d.rOID
 	refOID(body, r)
 	v := verdict{r.reason, len(in)}
+	vo := w.oidVariantsOn(body)
+	w.pf = vo // destination pre-fill (prior.go) on the bodies that also get the variants
 	w.oidTargets(in, v, 0)
-	if w.anyAccept && w.oidVariantsOn(body) {
+	if w.anyAccept && vo {
 		w.oidVariants(in, v)
 	}
 }
@@ -417,9 +438,12 @@ func evalOID(w *W, body []byte) {
 func (w *W) oidVariants(in []byte, v verdict) {
 	w.oidTargets(withTrailer(in), v, 0)
 	vv := verdict{oidX.wrongID, len(in)}
-	for _, m := range idMasks {
+	pf := w.pf
+	for i, m := range idMasks {
+		w.pf = pf && i == 0 // destination pre-fill under the first of the other identifier octets only
 		w.oidTargets(in, vv, m)
 	}
+	w.pf = pf
 }
 
 // oidTargets: d.rOID holds the reference arcs of the body.
@@ -435,6 +459,7 @@ func (w *W) oidTargets(in []byte, v verdict, mask byte) {
 	// encoding/asn1
 	w.cur, w.ct = in, 0
 	d.oid = nil
+	w.keepInput(in)
 	rest, err := asn1.Unmarshal(in, &d.oid)
 	w.ops++
 	if err != nil {
@@ -444,14 +469,20 @@ func (w *W) oidTargets(in []byte, v verdict, mask byte) {
 		w.ops++
 		w.accepted(0, v, len(in)-len(rest), re, reErr, oidEq(d.oid, r), func() string { return d.oid.String() })
 	}
+	w.afterRead(0, in, slotOID, err == nil, len(rest), func(d *dests) (bool, int) {
+		rest, err := asn1.Unmarshal(in, &d.oid)
+		return err == nil, len(rest)
+	})
 
 	// cryptobyte
 	w.cur, w.ct = in, 1
 	d.oid = nil
+	w.keepInput(in)
 	w.s = cryptobyte.String(in)
 	s := &w.s
 	ok := s.ReadASN1ObjectIdentifier(&d.oid)
 	w.ops++
+	left := len(*s)
 	if !ok {
 		w.rejected(1, v, coreC, 0, noWhy)
 	} else {
@@ -461,10 +492,14 @@ func (w *W) oidTargets(in []byte, v verdict, mask byte) {
 		w.ops++
 		w.accepted(1, v, len(in)-len(*s), re, reErr, oidEq(d.oid, r), func() string { return d.oid.String() })
 	}
+	w.afterRead(1, in, slotOID, ok, left, func(d *dests) (bool, int) {
+		w.s = cryptobyte.String(in)
+		ok := w.s.ReadASN1ObjectIdentifier(&d.oid)
+		return ok, len(w.s)
+	})
 
 	if d.withAny && mask == 0 { // interface{} is ANY: no expected identifier
-		d.any = nil
-		w.asn1Dec(2, in, v, coreA, 0, &d.any, func() (interface{}, bool) {
+		w.asn1Dec(2, in, v, coreA, 0, slotAny, func(d *dests) interface{} { return &d.any }, func() (interface{}, bool) {
 			x, ok := d.any.(asn1.ObjectIdentifier)
 			return d.any, ok && oidEq(x, r)
 		})
@@ -589,6 +624,9 @@ func evalBit(w *W, body []byte) {
 	copy(in[2:], body)
 	reason, bitLen := refBitString(body)
 	v := verdict{reason, len(in)}
+	// destination pre-fill (prior.go): of the 2^24 three-octet bodies the quick tier
+	// takes those whose last octet is in edge6 (pad octet and first content octet exhaustive)
+	w.pf = n != 3 || w.pfAll || isEdge6(body[2])
 	w.bitTargets(in, body, v, 0, bitLen)
 	if w.anyAccept {
 		w.bitVariants(in, body, v, bitLen)
@@ -598,9 +636,12 @@ func evalBit(w *W, body []byte) {
 func (w *W) bitVariants(in, body []byte, v verdict, bitLen int) {
 	w.bitTargets(withTrailer(in), body, v, 0, bitLen)
 	vv := verdict{bitX.wrongID, len(in)}
-	for _, m := range idMasks {
+	pf := w.pf
+	for i, m := range idMasks {
+		w.pf = pf && i == 0 // destination pre-fill under the first of the other identifier octets only
 		w.bitTargets(in, body, vv, m, bitLen)
 	}
+	w.pf = pf
 }
 
 // bitTargets: body = the contents octets inside in, bitLen = reference bit length.
@@ -609,11 +650,9 @@ func (w *W) bitTargets(in, body []byte, v verdict, mask byte, bitLen int) {
 	canon := v.reason == 0
 	in[0] = 0x03 ^ mask
 
-	d.bs = asn1.BitString{}
-	w.asn1Dec(0, in, v, canon, 0, &d.bs, func() (interface{}, bool) { return d.bs, canon && bsEq(d.bs, body, bitLen) })
+	w.asn1Dec(0, in, v, canon, 0, slotBS, func(d *dests) interface{} { return &d.bs }, func() (interface{}, bool) { return d.bs, canon && bsEq(d.bs, body, bitLen) })
 	if mask == 0 { // interface{} is ANY: no expected identifier
-		d.any = nil
-		w.asn1Dec(1, in, v, canon, 0, &d.any, func() (interface{}, bool) {
+		w.asn1Dec(1, in, v, canon, 0, slotAny, func(d *dests) interface{} { return &d.any }, func() (interface{}, bool) {
 			x, ok := d.any.(asn1.BitString)
 			return d.any, ok && canon && bsEq(x, body, bitLen)
 		})
@@ -622,24 +661,21 @@ func (w *W) bitTargets(in, body []byte, v verdict, mask byte, bitLen int) {
 	// cryptobyte: a BitString value is re-encoded with Builder.MarshalASN1 (the
 	// only Builder method that can express unused bits) and, when it is a whole
 	// number of octets, also with Builder.AddASN1BitString.
-	d.bs = asn1.BitString{}
-	w.cbDec(2, in, v, canon, 0,
-		func(s *cryptobyte.String) bool { return s.ReadASN1BitString(&d.bs) },
+	w.cbDec(2, in, v, canon, 0, slotBS,
+		func(s *cryptobyte.String, d *dests) bool { return s.ReadASN1BitString(&d.bs) },
 		func(b *cryptobyte.Builder) { b.MarshalASN1(d.bs) },
 		func() bool { return canon && bsEq(d.bs, body, bitLen) }, func() string { return bsStr(d.bs) })
 	whole := len(body) > 0 && body[0] == 0
 	if whole && (canon || mask != 0) {
-		d.bs = asn1.BitString{}
-		w.cbDec(4, in, v, canon, 0,
-			func(s *cryptobyte.String) bool { return s.ReadASN1BitString(&d.bs) },
+		w.cbDec(4, in, v, canon, 0, slotBS,
+			func(s *cryptobyte.String, d *dests) bool { return s.ReadASN1BitString(&d.bs) },
 			func(b *cryptobyte.Builder) { b.AddASN1BitString(d.bs.Bytes) },
 			func() bool { return bsEq(d.bs, body, bitLen) }, func() string { return bsStr(d.bs) })
 	}
-	var raw []byte
-	w.cbDec(3, in, v, canon && whole, 0,
-		func(s *cryptobyte.String) bool { return s.ReadASN1BitStringAsBytes(&raw) },
-		func(b *cryptobyte.Builder) { b.AddASN1BitString(raw) },
-		func() bool { return canon && whole && string(raw) == string(body[1:]) }, func() string { return hexClip(raw) })
+	w.cbDec(3, in, v, canon && whole, 0, slotRaw,
+		func(s *cryptobyte.String, d *dests) bool { return s.ReadASN1BitStringAsBytes(&d.rawb) },
+		func(b *cryptobyte.Builder) { b.AddASN1BitString(d.rawb) },
+		func() bool { return canon && whole && string(d.rawb) == string(body[1:]) }, func() string { return hexClip(d.rawb) })
 }
 
 func bsStr(bs asn1.BitString) string {
@@ -936,13 +972,17 @@ func evalTime(w *W, str []byte) {
 	r := &w.d.rTime
 	refGTime(str, r)
 	v := verdict{r.reason, len(in)}
+	w.pf = true
 	w.timeTargets(in, v, 0)
 	if w.anyAccept {
 		w.timeTargets(withTrailer(in), v, 0)
 		vv := verdict{gtX.wrongID, len(in)}
-		for _, m := range idMasks {
+		pf := w.pf
+		for i, m := range idMasks {
+			w.pf = pf && i == 0 // destination pre-fill under the first of the other identifier octets only
 			w.timeTargets(in, vv, m)
 		}
+		w.pf = pf
 	}
 }
 
@@ -950,9 +990,8 @@ func (w *W) timeTargets(in []byte, v verdict, mask byte) {
 	d := &w.d
 	r := &d.rTime
 	in[0] = 0x18 ^ mask
-	d.tm = time.Time{}
-	w.cbDec(0, in, v, v.reason == 0, 0,
-		func(s *cryptobyte.String) bool { return s.ReadASN1GeneralizedTime(&d.tm) },
+	w.cbDec(0, in, v, v.reason == 0, 0, slotTime,
+		func(s *cryptobyte.String, d *dests) bool { return s.ReadASN1GeneralizedTime(&d.tm) },
 		func(b *cryptobyte.Builder) { b.AddASN1GeneralizedTime(d.tm) },
 		func() bool {
 			t := d.tm
